@@ -26,7 +26,9 @@ void *memcpy (void *dst, const void *src, size_t n) {
 #ifndef VP_MEMCPY_NO_HAVOC
     __CPROVER_havoc_object (dst);
 #endif
+#ifndef VP_NO_GHOST_COPY /* layout-only harnesses: contents are not tracked at all */
     if (in) ((VP_GHOST_T *) dst)[vp_G] = g;
+#endif
   }
   return dst;
 }
@@ -38,8 +40,12 @@ void *memmove (void *dst, const void *src, size_t n) {
     VP_GHOST_T g;
     _Bool in = vp_G < n / sizeof (VP_GHOST_T);
     if (in) g = ((const VP_GHOST_T *) src)[vp_G];
+#ifndef VP_MEMCPY_NO_HAVOC
     __CPROVER_havoc_object (dst);
+#endif
+#ifndef VP_NO_GHOST_COPY /* layout-only harnesses: contents are not tracked at all */
     if (in) ((VP_GHOST_T *) dst)[vp_G] = g;
+#endif
   }
   return dst;
 }
@@ -48,11 +54,15 @@ void *memset (void *dst, int c, size_t n) {
   __CPROVER_assert (n == 0 || __CPROVER_w_ok (dst, n), "memset: destination writable for n bytes");
   if (n > 0) {
     _Bool in = vp_G < n / sizeof (VP_GHOST_T);
+#ifndef VP_MEMCPY_NO_HAVOC
     __CPROVER_havoc_object (dst);
+#endif
+#ifndef VP_NO_GHOST_COPY
     if (in) {
       unsigned char *p = (unsigned char *) &((VP_GHOST_T *) dst)[vp_G];
       for (size_t k = 0; k < sizeof (VP_GHOST_T); k++) p[k] = (unsigned char) c;
     }
+#endif
   }
   return dst;
 }
